@@ -1,8 +1,50 @@
 //! Extra implementation-side modes for property C08 (the shared `parse` mode lives in parse.rs).
+//!
+//! `(respell (cmd ...) (argv A...) (argv B...))`: parse two spellings of one invocation with the
+//! real crate (a fresh `Command` for each, same environment) and print both canonical results as
+//! `<result A> ### <result B>`.
+use crate::modes::parse::{build_cmd, show_result, EnvGuard};
 use crate::sexp::Sx;
+use std::ffi::OsString;
+use std::os::unix::ffi::OsStringExt;
+use std::panic::{catch_unwind, AssertUnwindSafe};
+
+fn one(cmd: &clap::Command, argv: &Sx) -> String {
+    let argv: Vec<OsString> = argv.args().iter().map(|x| OsString::from_vec(x.bytes())).collect();
+    let c = cmd.clone();
+    match catch_unwind(AssertUnwindSafe(|| show_result(c.try_get_matches_from(argv)))) {
+        Ok(s) => s,
+        Err(p) => {
+            let msg = p
+                .downcast_ref::<String>()
+                .cloned()
+                .or_else(|| p.downcast_ref::<&str>().map(|s| s.to_string()))
+                .unwrap_or_default();
+            format!("PANIC {}", msg.replace(['\n', '\t'], " "))
+        }
+    }
+}
+
+fn respell(a: &[Sx]) -> String {
+    let mut env = EnvGuard(vec![]);
+    let cmd = match catch_unwind(AssertUnwindSafe(|| {
+        let c = build_cmd(a[0].args(), &mut env);
+        let mut probe = c.clone();
+        probe.build();
+        c
+    })) {
+        Ok(c) => c,
+        Err(_) => return "INVALID ### INVALID".into(),
+    };
+    let ra = one(&cmd, &a[1]);
+    let rb = one(&cmd, &a[2]);
+    format!("{ra} ### {rb}")
+}
 
 /// Returns `Some(result)` when `head` is a mode of this file.
 pub fn dispatch(head: &str, args: &[Sx]) -> Option<String> {
-    let _ = (head, args);
-    None
+    match head {
+        "respell" => Some(respell(args)),
+        _ => None,
+    }
 }
